@@ -719,7 +719,7 @@ def to_term(o):
 
 
 def is_sym(o):
-    return isinstance(o, (SymReal, SymBool))
+    return isinstance(o, (SymReal, SymBool, SymComplex))
 
 
 def has_sym(a):
@@ -1396,6 +1396,107 @@ def sym_sum(xs):
 
 def dot(a, b):
     return sym_sum(np.asarray(a, dtype=object).ravel() * np.asarray(b, dtype=object).ravel())
+
+
+class SymComplex:
+    """Complex scalar with symbolic real / imaginary parts (each a SymReal or a float): just enough arithmetic for
+    code that forms  a + 1j*b,  multiplies by concrete complex matrices and takes the real part (GMRF periodic sampling)."""
+    __array_priority__ = 1001
+
+    def __init__(self, re, im):
+        self.re, self.im = re, im
+
+    @staticmethod
+    def of(o):
+        if isinstance(o, SymComplex):
+            return o
+        if isinstance(o, (complex, np.complexfloating)):
+            return SymComplex(float(o.real), float(o.imag))
+        if isinstance(o, SymReal):
+            return SymComplex(o, 0.0)
+        cv = _conc(o)
+        if cv is not None:
+            return SymComplex(float(cv), 0.0)
+        return None
+
+    @property
+    def real(self):
+        return self.re
+
+    @property
+    def imag(self):
+        return self.im
+
+    def conjugate(self):
+        return SymComplex(self.re, -self.im)
+
+    conj = conjugate
+
+    def __neg__(self):
+        return SymComplex(-self.re, -self.im)
+
+    def __pos__(self):
+        return self
+
+    def __add__(self, o):
+        o = SymComplex.of(o)
+        if o is None:
+            return NotImplemented
+        return SymComplex(self.re + o.re, self.im + o.im)
+
+    __radd__ = __add__
+
+    def __sub__(self, o):
+        o = SymComplex.of(o)
+        if o is None:
+            return NotImplemented
+        return SymComplex(self.re - o.re, self.im - o.im)
+
+    def __rsub__(self, o):
+        o = SymComplex.of(o)
+        if o is None:
+            return NotImplemented
+        return SymComplex(o.re - self.re, o.im - self.im)
+
+    def __mul__(self, o):
+        o = SymComplex.of(o)
+        if o is None:
+            return NotImplemented
+        return SymComplex(self.re * o.re - self.im * o.im, self.re * o.im + self.im * o.re)
+
+    __rmul__ = __mul__
+
+    def __truediv__(self, o):
+        o = SymComplex.of(o)
+        if o is None:
+            return NotImplemented
+        den = o.re * o.re + o.im * o.im
+        num = self * o.conjugate()
+        return SymComplex(num.re / den, num.im / den)
+
+    def __rtruediv__(self, o):
+        o = SymComplex.of(o)
+        if o is None:
+            return NotImplemented
+        return o.__truediv__(self)
+
+    def __repr__(self):
+        return 'SymComplex(%r, %r)' % (self.re, self.im)
+
+
+def _complex_aware(name):
+    orig = getattr(SymReal, name)
+
+    def method(self, o):
+        if isinstance(o, (complex, np.complexfloating)):
+            return getattr(SymComplex(self, 0.0), name)(o)
+        return orig(self, o)
+    method.__name__ = name
+    return method
+
+
+for _n in ('__add__', '__radd__', '__sub__', '__rsub__', '__mul__', '__rmul__', '__truediv__', '__rtruediv__'):
+    setattr(SymReal, _n, _complex_aware(_n))
 
 
 # --------------------------------------------------------------------------
